@@ -35,17 +35,47 @@ type apCase struct {
 
 func apEntryName(j int) string { return fmt.Sprintf("e%d", j+1) }
 
-// apRender writes the ammo file of the cell into fs and returns the provider config (string-keyed map).
-func apRender(fs afero.Fs, c apCase, dir string) (map[string]interface{}, error) {
+// apLayout: variations of the rendered file that must not change anything the property talks about.
+type apLayout struct {
+	NoFinalNL bool // the file does not end with a newline
+	Big       bool // every entry carries ~5 KB of padding: files exceed the 4 KB bufio.Reader / (with 40 entries) 64 KB scanner buffers
+	Rel       bool // the config names the file by a path relative to the working directory (OS fs only)
+}
+
+func (l apLayout) String() string {
+	s := "std"
+	if l.Big {
+		s = "big"
+	}
+	if l.NoFinalNL {
+		s += "+nonl"
+	}
+	if l.Rel {
+		s += "+rel"
+	}
+	return s
+}
+
+var apPad = strings.Repeat("0123456789abcdef", 320) // 5120 bytes, no newline, URL- and JSON-safe
+
+// apRender writes the ammo file of the cell into fs (directory dir) and returns the provider config
+// (string-keyed map) and the path of the file written ("" for inline uris).
+func apRender(fs afero.Fs, c apCase, dir string, lay apLayout) (map[string]interface{}, string, error) {
 	n := len(c.W)
 	var b strings.Builder
 	conf := map[string]interface{}{"limit": c.Limit, "passes": c.Passes}
-	path := fmt.Sprintf("%s/c%d", dir, c.ID)
+	name := fmt.Sprintf("c%d", c.ID)
+	pad, qpad, jpad := "", "", ""
+	if lay.Big {
+		pad = apPad
+		qpad = "?pad=" + apPad
+		jpad = `,"pad":"` + apPad + `"`
+	}
 	switch c.Kind {
 	case "uri":
 		conf["type"] = "uri"
 		for j := 0; j < n; j++ {
-			fmt.Fprintf(&b, "/%s %s\n", apEntryName(j), apEntryName(j))
+			fmt.Fprintf(&b, "/%s%s %s\n", apEntryName(j), qpad, apEntryName(j))
 		}
 	case "uris":
 		conf["type"] = "uri"
@@ -57,19 +87,19 @@ func apRender(fs afero.Fs, c apCase, dir string) (map[string]interface{}, error)
 	case "raw":
 		conf["type"] = "raw"
 		for j := 0; j < n; j++ {
-			req := fmt.Sprintf("GET /%s HTTP/1.1\r\nHost: h.example\r\n\r\n", apEntryName(j))
+			req := fmt.Sprintf("GET /%s HTTP/1.1\r\nHost: h.example\r\nX-Pad: p%s\r\n\r\n", apEntryName(j), pad)
 			fmt.Fprintf(&b, "%d %s\n%s\n", len(req), apEntryName(j), req)
 		}
 	case "uripost":
 		conf["type"] = "uripost"
 		for j := 0; j < n; j++ {
-			body := fmt.Sprintf("body-%d", j+1)
+			body := fmt.Sprintf("body-%d%s", j+1, pad)
 			fmt.Fprintf(&b, "%d /%s %s\n%s\n", len(body), apEntryName(j), apEntryName(j), body)
 		}
 	case "jsonline":
 		conf["type"] = "http/json"
 		for j := 0; j < n; j++ {
-			fmt.Fprintf(&b, `{"host":"h.example","method":"GET","uri":"/%s","tag":"%s"}`+"\n", apEntryName(j), apEntryName(j))
+			fmt.Fprintf(&b, `{"host":"h.example","method":"GET","uri":"/%s","tag":"%s","body":"b%s"}`+"\n", apEntryName(j), apEntryName(j), pad)
 		}
 	case "jsonarray":
 		conf["type"] = "http/json"
@@ -79,24 +109,24 @@ func apRender(fs afero.Fs, c apCase, dir string) (map[string]interface{}, error)
 			if j == n-1 {
 				sep = ""
 			}
-			fmt.Fprintf(&b, `  {"host":"h.example","method":"GET","uri":"/%s","tag":"%s"}%s`+"\n", apEntryName(j), apEntryName(j), sep)
+			fmt.Fprintf(&b, `  {"host":"h.example","method":"GET","uri":"/%s","tag":"%s","body":"b%s"}%s`+"\n", apEntryName(j), apEntryName(j), pad, sep)
 		}
 		b.WriteString("]\n")
 	case "grpcjson":
 		conf["type"] = "grpc/json"
 		for j := 0; j < n; j++ {
-			fmt.Fprintf(&b, `{"tag":"%s","call":"target.TargetService.Hello","payload":{"k":%d}}`+"\n", apEntryName(j), j+1)
+			fmt.Fprintf(&b, `{"tag":"%s","call":"target.TargetService.Hello","payload":{"k":%d%s}}`+"\n", apEntryName(j), j+1, jpad)
 		}
 	case "httpscn":
 		conf["type"] = "http/scenario"
-		path += ".yaml"
+		name += ".yaml"
 		b.WriteString("requests:\n  - name: r1\n    method: GET\n    uri: /r1\n    tag: r1\nscenarios:\n")
 		for j := 0; j < n; j++ {
 			fmt.Fprintf(&b, "  - name: %s\n    weight: %d\n    min_waiting_time: 0\n    requests:\n      - r1(1)\n", apEntryName(j), c.W[j])
 		}
 	case "grpcscn":
 		conf["type"] = "grpc/scenario"
-		path += ".yaml"
+		name += ".yaml"
 		b.WriteString("calls:\n  - name: r1\n    tag: r1\n    call: target.TargetService.Hello\n    payload: '{}'\nscenarios:\n")
 		for j := 0; j < n; j++ {
 			fmt.Fprintf(&b, "  - name: %s\n    weight: %d\n    min_waiting_time: 0\n    requests:\n      - r1(1)\n", apEntryName(j), c.W[j])
@@ -104,14 +134,24 @@ func apRender(fs afero.Fs, c apCase, dir string) (map[string]interface{}, error)
 	case "json":
 		conf["type"] = "json"
 		for j := 0; j < n; j++ {
-			fmt.Fprintf(&b, `{"id":"%s","n":%d}`+"\n", apEntryName(j), j+1)
+			fmt.Fprintf(&b, `{"id":"%s","n":%d%s}`+"\n", apEntryName(j), j+1, jpad)
 		}
 	default:
-		return nil, fmt.Errorf("unknown kind %q", c.Kind)
+		return nil, "", fmt.Errorf("unknown kind %q", c.Kind)
 	}
+	written := ""
 	if c.Kind != "uris" {
-		if err := afero.WriteFile(fs, path, []byte(b.String()), 0o644); err != nil {
-			return nil, err
+		data := b.String()
+		if lay.NoFinalNL {
+			data = strings.TrimSuffix(data, "\n") // exactly one
+		}
+		written = dir + "/" + name
+		if err := afero.WriteFile(fs, written, []byte(data), 0o644); err != nil {
+			return nil, "", err
+		}
+		path := written
+		if lay.Rel {
+			path = name // the process works in dir
 		}
 		if c.Kind == "json" {
 			conf["source"] = map[string]interface{}{"type": "file", "path": path}
@@ -122,7 +162,7 @@ func apRender(fs afero.Fs, c apCase, dir string) (map[string]interface{}, error)
 	if c.Preload {
 		conf["preload"] = true
 	}
-	return conf, nil
+	return conf, written, nil
 }
 
 // apYAMLShape converts a string-keyed config tree into what yaml.v2 produces
